@@ -36,6 +36,22 @@ fn order(kind: &str, n: i64) -> Vec<i64> {
         "mono" => (0..n).collect(),
         "rev" => (0..n).rev().collect(),
         "zigzag" => (0..n).map(|i| if i % 2 == 0 { i / 2 } else { n - 1 - i / 2 }).collect(),
+        // a left link that carries a deep right subtree: descending keys, then one key above all
+        "revtop" => (0..n - 1).rev().chain(std::iter::once(n)).collect(),
+        // a right link that carries a deep left subtree
+        "monobot" => (1..n).chain(std::iter::once(0)).collect(),
+        // blocks of ascending runs in descending block order: mixed left / right spines
+        "blocks" => {
+            let b = 1 + (n as f64).sqrt() as i64;
+            let mut v = Vec::new();
+            let mut hi = n;
+            while hi > 0 {
+                let lo = (hi - b).max(0);
+                v.extend(lo..hi);
+                hi = lo;
+            }
+            v
+        }
         _ => {
             let mut s: u64 = 0x9e3779b97f4a7c15;
             (0..n)
@@ -48,6 +64,22 @@ fn order(kind: &str, n: i64) -> Vec<i64> {
                 .collect()
         }
     }
+}
+
+/// a comb whose teeth tips move right as they go down: the tips enter the sweep line in DEcreasing
+/// sweep-line order, which builds a chain of right children in the splay tree
+pub fn comb_desc(n: usize) -> Polygon<f64> {
+    let mut pts = Vec::new();
+    let h = n as f64;
+    pts.push(Coord { x: 1000.0, y: h + 1.0 });
+    for i in 0..n {
+        let y = h - i as f64;
+        pts.push(Coord { x: 1.0 + (i as f64) * 1e-3, y: y + 0.5 });
+        pts.push(Coord { x: 900.0, y: y + 0.1 });
+    }
+    pts.push(Coord { x: 1000.0, y: -1.0 });
+    pts.push(Coord { x: 1000.0, y: h + 1.0 });
+    Polygon::new(LineString(pts), vec![])
 }
 
 pub fn comb(n: usize, x0: f64) -> Polygon<f64> {
@@ -142,6 +174,22 @@ fn scenario(name: &str, n: i64) {
             )]);
             let r = a.intersection(&b);
             assert!(!r.0.is_empty());
+        }
+        "sweepdesc" => {
+            // tips at x = 1 .. 1 + n/1000 enter top to bottom; the clipping box ends at x = 800 < 900, so the
+            // sweep breaks while every tooth edge is still on the sweep line
+            let a = MultiPolygon(vec![comb_desc(n as usize)]);
+            let b = MultiPolygon(vec![Polygon::new(
+                LineString(vec![
+                    Coord { x: 700.0, y: 0.2 },
+                    Coord { x: 800.0, y: 0.2 },
+                    Coord { x: 800.0, y: 0.4 },
+                    Coord { x: 700.0, y: 0.4 },
+                    Coord { x: 700.0, y: 0.2 },
+                ]),
+                vec![],
+            )]);
+            let _ = a.intersection(&b);
         }
         _ => panic!("unknown scenario"),
     }
